@@ -48,6 +48,23 @@ def r1_readers(ctx):
     d1 = c02.reader_dialect(ctx, by['import_file'][1], by['import_file'][2])
     d2 = c02.reader_dialect(ctx, by['import_string'][1], by['import_string'][2])
     e2, f2, c2, stream2, o2 = by['import_string']
+
+    def effective(d_):
+        # what the reader does: with quoting disabled the quote character and doubling are without effect; defaults made explicit
+        d_ = {k: v for k, v in (d_ or {}).items() if k != '<dialect>'}
+        d_.setdefault('delimiter', ',')
+        d_.setdefault('quoting', 'csv.QUOTE_MINIMAL')
+        if d_.get('quoting') == 'csv.QUOTE_NONE':
+            d_.pop('quotechar', None)
+            d_.pop('doublequote', None)
+        if d_.get('escapechar', None) is None:
+            d_.pop('escapechar', None)
+        if d_.get('skipinitialspace', False) is False:
+            d_.pop('skipinitialspace', None)
+        d_.pop('lineterminator', None)      # ignored by the reader
+        d_.pop('strict', None) if d_.get('strict', False) is False else None
+        return d_
+    d1, d2 = effective(d1), effective(d2)
     ctx.check(d1 == d2, 'R1', f'{f2.module.relpath}:{o2.lineno}', e2.qualname, 'reader-dialects-differ',
               f'both readers use the same csv dialect {d1}', f'file reader dialect {d1} != string reader dialect {d2}')
     # file path: open(..., newline='')
